@@ -496,11 +496,11 @@ def units(tier, seed):
     for i in range(0, len(jobs), 4):
         us.append(Unit(f"clean_{i // 4:02d}", "c10:unit_clean", {"jobs": jobs[i:i + 4]}, 3))
     for sh in range(4 if T else 2):
-        us.append(Unit(f"clean_generated_{sh}", "c10:unit_clean_generated", {"n_cases": 150 if T else 25, "nmax": (24 if T else 16) - 4 * (sh % 2)}, 6))
+        us.append(Unit(f"clean_generated_{sh}", "c10:unit_clean_generated", {"n_cases": 600 if T else 25, "nmax": (24 if T else 16) - 4 * (sh % 2)}, 6))
     us.append(Unit("wagner_ml", "c10:unit_wagner", {"n_cases": 20000 if T else 1500}, 5))
     for a in (True, False):
-        us.append(Unit(f"bp_forest_arctanh{a}", "c10:unit_forest", {"n_cases": 3000 if T else 250, "nmax": 14 if T else 12, "arctanh": a}, 8))
+        us.append(Unit(f"bp_forest_arctanh{a}", "c10:unit_forest", {"n_cases": 12000 if T else 250, "nmax": 14 if T else 12, "arctanh": a}, 8))
     for sc, of in ((1.0, 0.0), (0.75, 0.0), (1.0, 0.2), (0.8, 0.1)):
-        us.append(Unit(f"minsum_ref_s{sc}_o{of}", "c10:unit_minsum", {"n_cases": 1500 if T else 120, "nmax": 16 if not T else 20, "scale": sc, "offset": of}, 6))
+        us.append(Unit(f"minsum_ref_s{sc}_o{of}", "c10:unit_minsum", {"n_cases": 6000 if T else 120, "nmax": 16 if not T else 20, "scale": sc, "offset": of}, 6))
     us.append(Unit("perturb", "c10:unit_perturb", {}, 4))
     return us
